@@ -2109,7 +2109,7 @@ def render_delayed(e,run,d):
             i+=1; s='+' if offv>=0 else '-'; o=abs(offv); out+='%s%02d:%02d'%(s,o//3600,(o%3600)//60); continue
         if sp=='z':
             s='+' if offv>=0 else '-'; o=abs(offv); out+='%s%02d%02d'%(s,o//3600,(o%3600)//60); continue
-        if sp in 'YmdHMSjyeb': out+=t.strftime('%'+sp); continue
+        if sp in 'YmdHMSjyebGVuUWaAwC': out+=t.strftime('%'+sp); continue
         if sp=='F': out+=t.strftime('%Y-%m-%d'); continue
         if sp=='T': out+=t.strftime('%H:%M:%S'); continue
         if sp=='s': out+=str(dt.f[0].signed_val()); continue
@@ -2179,3 +2179,34 @@ def register_misc14(E):
 _old_register_all23=register_all
 def register_all(E):
     _old_register_all23(E); register_misc14(E)
+
+# ---- std::sync::OnceLock / std::cell::OnceCell (single-threaded semantics: the first initialiser wins)
+def m_once_new(e,run,a,f): return Agg('OnceLock',[none()])
+class _OnceSlot:
+    """the Option inside a OnceLock, whether the lock value is our Agg or an opaque constant of a static initialiser"""
+    def __init__(self,d): self.d=d
+    def get(self):
+        if isinstance(self.d,Agg): return self.d.f[0]
+        if not isinstance(self.d.p,dict): self.d.p={'once':none()}
+        return self.d.p.setdefault('once',none())
+    def put(self,v):
+        if isinstance(self.d,Agg): self.d.f[0]=v
+        else: self.get(); self.d.p['once']=v
+def m_once_get_or_init(e,run,a,f):
+    sl=_OnceSlot(deref(a[0]))
+    if sl.get().vname=='None': sl.put(some(e.call_value(run,a[1],[])))
+    return Ref(Cell(sl.get().f[0]))
+def m_once_get(e,run,a,f):
+    sl=_OnceSlot(deref(a[0]))
+    return none() if sl.get().vname=='None' else some(Ref(Cell(sl.get().f[0])))
+def m_once_set(e,run,a,f):
+    sl=_OnceSlot(deref(a[0]))
+    if sl.get().vname=='None': sl.put(some(a[1])); return ok(UNIT)
+    return err(a[1])
+def register_misc15(E):
+    M=E.model
+    M(r'^(std::sync::)?(OnceLock|OnceCell)::new$',m_once_new); M(r'^(std::sync::)?(OnceLock|OnceCell)::get_or_init$',m_once_get_or_init)
+    M(r'^(std::sync::)?(OnceLock|OnceCell)::get$',m_once_get); M(r'^(std::sync::)?(OnceLock|OnceCell)::set$',m_once_set)
+_old_register_all24=register_all
+def register_all(E):
+    _old_register_all24(E); register_misc15(E)
